@@ -289,6 +289,15 @@ def enterBuilds (c : PCfg) (i : Nat) (ps : PSt) (run : Run) (k : Nat) : PSt × P
         ({ ps with st := { ps.st with failImm := run.id :: ps.st.failImm } }, .idle, true)
       else ({ ps with lock := if c.locked then some i else ps.lock }, .atBuild run j b, false)
 
+/-- the draw of the local random scheduler (`random.choice(task_list)`); batch and
+round-robin take the first run -/
+def pickLocal (s : Sched) (ps : PSt) (len : Nat) : Nat × PSt :=
+  match s with
+  | .random => match ps.choices with
+    | k :: ks => (k % len, { ps with choices := ks })
+    | [] => (0, ps)
+  | _ => (0, ps)
+
 /-- the local sequential scheduler picks its next run (or the worker fetches a
 new chunk) and runs `execute_run` up to the first scheduling point.
 `fuel` bounds the number of runs skipped in one go. -/
@@ -297,28 +306,21 @@ def advance (c : PCfg) (n i : Nat) : Nat → PSt → Worker → PSt × Worker
   | fuel + 1, ps, w =>
     match w.local_ with
     | [] =>
-      match ps.remaining with
-      | [] => (ps, { w with pc := .dead, local_ := [] })
-      | _ =>
-        let (chunk, rest) := acquireWork n ps.remaining
-        advance c n i fuel { ps with remaining := rest } { w with local_ := chunk }
+      if ps.remaining.isEmpty then (ps, { w with pc := .dead, local_ := [] })
+      else
+        let aw := acquireWork n ps.remaining
+        advance c n i fuel { ps with remaining := aw.2 } { w with local_ := aw.1 }
     | r0 :: rs0 =>
-      -- pick per local policy
-      let (j, ps) := match c.sched with
-        | .random => match ps.choices with
-          | k :: ks => (k % (r0 :: rs0).length, { ps with choices := ks })
-          | [] => (0, ps)
-        | _ => (0, ps)
-      match (r0 :: rs0)[j]? with
-      | none => (ps, { w with pc := .dead })
+      let pk := pickLocal c.sched ps (r0 :: rs0).length
+      match (r0 :: rs0)[pk.1]? with
+      | none => (pk.2, { w with pc := .dead })
       | some run =>
-        let others := (r0 :: rs0).eraseIdx j
-        if shouldTerminate ps.st run then
-          advance c n i fuel ps { w with local_ := others }
+        let others := (r0 :: rs0).eraseIdx pk.1
+        if shouldTerminate pk.2.st run then advance c n i fuel pk.2 { w with local_ := others }
         else
-          let (ps', pc, raised) := enterBuilds c i ps run 0
-          if raised then advance c n i fuel ps' { w with local_ := others }
-          else (ps', { w with pc := pc })
+          let eb := enterBuilds c i pk.2 run 0
+          if eb.2.2 then advance c n i fuel eb.1 { w with local_ := others }
+          else (eb.1, { w with pc := eb.2.1 })
 
 def dropRun (run : Run) (l : List Run) : List Run := l.erase run
 
@@ -332,11 +334,11 @@ def PSt.put (ps : PSt) (i : Nat) (w : Worker) : PSt := { ps with workers := ps.w
 /-- builds ≥ k of `run`, then towards the benchmark start; a raised
 FailedBuilding makes the local scheduler drop the run and go on -/
 def continueWith (c : PCfg) (n fuel i : Nat) (ps : PSt) (w : Worker) (run : Run) (k : Nat) : PSt :=
-  let (ps', pc, raised) := enterBuilds c i ps run k
-  if raised then
-    let (ps'', w') := advance c n i fuel ps' { w with local_ := dropRun run w.local_ }
-    ps''.put i w'
-  else ps'.put i { w with pc := pc }
+  let eb := enterBuilds c i ps run k
+  if eb.2.2 then
+    let a := advance c n i fuel eb.1 { w with local_ := dropRun run w.local_ }
+    a.1.put i a.2
+  else eb.1.put i { w with pc := eb.2.1 }
 
 /-- one atomic segment of worker `i`. A worker that cannot move (dead, or
 waiting for the lock another worker holds) leaves the state unchanged. -/
@@ -347,8 +349,8 @@ def pstep (c : PCfg) (n : Nat) (fuel : Nat) (i : Nat) (ps : PSt) : PSt :=
     match w.pc with
     | .dead => ps
     | .idle =>
-      let (ps', w') := advance c n i fuel ps w
-      ps'.put i w'
+      let a := advance c n i fuel ps w
+      a.1.put i a.2
     | .wantLock run k =>
       match ps.lock with
       | some _ => ps           -- blocked
@@ -368,16 +370,16 @@ def pstep (c : PCfg) (n : Nat) (fuel : Nat) (i : Nat) (ps : PSt) : PSt :=
         let st' := { ps.st.emit (Ev.buildEnd b r) with
                       failed := b :: ps.st.failed, failImm := run.id :: ps.st.failImm }
         if r = .fail || c.oserrRaises then
-          let (ps', w') := advance c n i fuel { ps with st := st' } { w with local_ := dropRun run w.local_ }
-          ps'.put i w'
+          let a := advance c n i fuel { ps with st := st' } { w with local_ := dropRun run w.local_ }
+          a.1.put i a.2
         else continueWith c n fuel i { ps with st := st' } w run (k + 1)
     | .atStart run =>
       { ps with st := ps.st.emit (Ev.start run.id) }.put i { w with pc := .running run }
     | .running run =>
       let st' := ps.st.emit (Ev.finish run.id)
       let l := if shouldTerminate st' run then dropRun run w.local_ else requeue c.sched run w.local_
-      let (ps', w') := advance c n i fuel { ps with st := st' } { w with pc := .idle, local_ := l }
-      ps'.put i w'
+      let a := advance c n i fuel { ps with st := st' } { w with pc := .idle, local_ := l }
+      a.1.put i a.2
 
 /-- a parallel session prefix under the schedule `picks` (worker indices) -/
 def prun (c : PCfg) (n : Nat) (fuel : Nat) : List Nat → PSt → PSt
